@@ -123,11 +123,13 @@ func genScenario() *rapid.Generator[escn] {
 		s.On = rapid.IntRange(0, 15).Draw(t, "on") > 0
 		// flavours added later: a peer with several simultaneous connections (1 in 5), one procedure's limit exceeded
 		// right after observed counter resets while the other procedures carry legal traffic (1 in 10)
+		// (rapid draws small values and the bounds of a range far more often than the middle: the middle values are used,
+		// measured shares ~20 % and ~10 %)
 		switch f := rapid.IntRange(0, 19).Draw(t, "flavour"); {
-		case f < 4:
+		case f >= 8 && f <= 13:
 			genMulti(t, &s)
 			return s
-		case f < 6:
+		case f >= 14 && f <= 16:
 			genMirror(t, &s)
 			return s
 		}
@@ -1041,9 +1043,54 @@ func (r *erun) request(a, b int, proc string, data []byte) string {
 	r.snap(b, a)
 	r.snap(a, b)
 	t0 := time.Now()
+	// Watch the stored scores while the request is in flight where the model expects NO penalty: a false penalty that
+	// reaches the threshold closes the connection (the request then waits for its timeout) and a short ban may be over
+	// and swept before anybody looks again.
+	var falseScore atomic.Value
+	stopW, doneW := make(chan struct{}), make(chan struct{})
+	{
+		type watch struct {
+			x, y int
+			want int
+		}
+		var ws []watch
+		if !penB && !(proc == procStrict && len(data) == 1) && r.zone(b, a) == "clean" {
+			ws = append(ws, watch{b, a, B.bm.get(A.ip).score})
+		}
+		if A.cnt[proc][b]+1 <= LA && r.zone(a, b) == "clean" {
+			ws = append(ws, watch{a, b, A.bm.get(B.ip).score})
+		}
+		sample := func() {
+			for _, w := range ws {
+				if sc, _, ok := r.nodes[w.x].conn.VerifPeerScore(r.nodes[w.y].ip); ok && sc != w.want && falseScore.Load() == nil {
+					falseScore.Store(fmt.Sprintf("%s stored score %d for %s (model %d: the traffic of %s is within the limit of every procedure, no penalty is due) %.3fs after the request was sent",
+						r.name(w.x), sc, r.nodes[w.y].ip, w.want, r.name(w.y), time.Since(t0).Seconds()))
+					cancel() // no answer will come
+				}
+			}
+		}
+		go func() {
+			defer close(doneW)
+			for {
+				sample()
+				select {
+				case <-stopW:
+					sample() // a penalty is stored before the answer is sent
+					return
+				case <-time.After(5 * time.Millisecond):
+				}
+			}
+		}()
+	}
 	resp := A.conn.RequestFrom(ctx, B.conn.ID(), proc, data)
 	cancel()
+	close(stopW)
+	<-doneW
 	answered := resp.Error() == nil
+	if fs := falseScore.Load(); fs != nil {
+		return fmt.Sprintf("well-formed request %s -> %s %s within the limits was penalised: %s; request answered=%v, %s still connected to %s=%v",
+			r.name(a), r.name(b), proc, fs.(string), answered, r.name(b), r.name(a), r.connected(b, a))
+	}
 	if penB {
 		r.res.labels["rate-penalty"] = true
 		if v := r.expectPenalty(b, a, P, "rate-limit("+proc+")", t0); v != "" {
@@ -1153,7 +1200,7 @@ func interleave(counts []int, rnd []byte) []int {
 }
 
 // awaitCountersZero: all message counters of all rate-limited procedures are seen at zero on all nodes at once (every
-// node went through a reset since the last message); the harness's counts restart as well.
+// node went through a reset since the last message); the harness's counts restart as well. Always true (see below).
 func (r *erun) awaitCountersZero() bool {
 	ok := waitFor(10*time.Second, func() bool {
 		for x, X := range r.nodes {
@@ -1171,7 +1218,11 @@ func (r *erun) awaitCountersZero() bool {
 		return true
 	})
 	if !ok {
-		return false
+		// Not observed - but nothing was sent for 10 s (>= 6 intervals, during which this process demonstrably ran): whatever
+		// window the limit refers to is over, new traffic up to the limits is legal. If the node still counts the old
+		// messages, it will penalise legal traffic, and that is what gets reported.
+		r.logf("rate counters NOT seen at zero within 10 s (interval %v); nothing was sent meanwhile, so the windows are over by elapsed time: counts restart", r.s.rateInterval())
+		r.res.labels["rate-window-over-by-elapsed-time-only"] = true
 	}
 	if time.Since(r.started) >= r.s.rateInterval() {
 		r.firstReset = true
